@@ -21,7 +21,7 @@ RULE = ("cases = archive configuration (dir x {dill, fast, compressed, json, sou
         "inside both operations; distinct = (config, operation kinds, switch positions)")
 ASSUMPTIONS = ['interleavings are explored between libc calls under sequentially consistent file semantics (linux page cache); effects inside one system call are not subdivided',
                'writer/writer on the SAME key, deleters, and two writers on a single-file archive are outside the statement and not generated',
-               'sqlite busy retries are turned into yield points; a writer that gives up loudly (database is locked) is inconclusive, silent loss is a violation',
+               'sqlite busy retries are turned into yield points; a writer that gives up loudly (database is locked) after waiting, while another process is still active, is inconclusive; giving up WITHOUT waiting, giving up when every other process has finished, or silent loss, is a violation',
                'every schedule is fair and finite (when the generated list is exhausted the remaining processes run round-robin)']
 
 N = {'quick': 6, 'thorough': 400}     # per shard, shared by its strata (quick: 2 cases per (config, scenario) stratum, each ~60 schedules)
@@ -94,6 +94,11 @@ def cases(draw, cfg, scen=None):
         elif ninit:
             parts.append(['set', 0, newval(init[0][1])])
         parts.append(reader(a))
+    # how a writer stores: item assignment, update({k: v}), or - for a key that is absent before the schedule - setdefault(k, v)
+    absent = set(free)
+    for p in parts:
+        if p[0] == 'set':
+            p.append(draw(st.sampled_from(['setitem', 'setitem', 'update'] + (['setdefault', 'setdefault'] if p[1] in absent else []))))
     rnd = [draw(st.lists(st.integers(0, len(parts) - 1), min_size=5, max_size=60)) for _ in range(draw(st.integers(2, 6)))]
     # the processes may also share ONE handle opened before they were forked (a worker pool); sqlite connections must not cross a fork
     shared = cfg != 'sql_file' and draw(st.integers(0, 3)) == 0
@@ -107,7 +112,8 @@ SCENARIOS = dict((c, ['ww', 'wr', 'or', 'wo', 'wwr'] if c in DIRLIKE else ['wr',
 
 
 def strata(tier):
-    return [('%s/%s' % (c, sc), cases(c, sc)) for c in CONFIGS for sc in SCENARIOS[c]]
+    # sqlite strata get twice the budget: lock states (shared / reserved / pending, busy handling) make its schedule space the richest
+    return [('%s/%s' % (c, sc), cases(c, sc), (3 if sc in ('or', 'wr', 'wwr') else 2) if c == 'sql_file' else 1) for c in CONFIGS for sc in SCENARIOS[c]]
 
 
 # ------------------------------------------------------------ participants
@@ -144,7 +150,13 @@ def participant(cfg, root, op, keys, vals, shared=None, lowlevel=False):
         a = shared if shared is not None else A.open_archive(cfg, root, 'A')
         _KEEP.append(a)
         if kind == 'set':
-            a[keys[op[1]]] = vals[op[2]]
+            how = op[3] if len(op) > 3 else 'setitem'
+            if how == 'setdefault':
+                a.setdefault(keys[op[1]], vals[op[2]])         # the key is absent when this writer is a 'new key' writer
+            elif how == 'update':
+                a.update({keys[op[1]]: vals[op[2]]})
+            else:
+                a[keys[op[1]]] = vals[op[2]]
             return None
         return _read(a, op, keys)
     return fn
@@ -191,6 +203,8 @@ def _run(case, base):
     for p in parts:
         if p[0] == 'set':
             W[keys[p[1]]] = vals[p[2]]
+            if len(p) > 3:
+                classes.append('writer_via:' + p[3])
     tmpl = os.path.join(base, 'T')
     os.makedirs(tmpl)
 
@@ -218,6 +232,9 @@ def _run(case, base):
         nts.evals += 1
         final = procs.in_fork(lambda: _final(cfg, root))
         d = judge(cfg, case, parts, keys, vals, I, W, results, final, trace, label, tails)
+        if isinstance(d, str):
+            classes.append(d)        # inconclusive schedule (a loud lock time-out under real contention): recorded, the search goes on
+            d = None
         shutil.rmtree(root, ignore_errors=True)
         # switches strictly inside both operations
         order = [t[0] for t in trace]
@@ -307,6 +324,16 @@ def judge(cfg, case, parts, keys, vals, I, W, results, final, trace, label, tail
                     # every other process had finished its operation and sat idle while this one used up its whole retry budget:
                     # an idle process kept the database locked
                     return Discrepancy('C14/%s/%s/operation-failed/locked-by-an-idle-process' % (tag, kind), '%r raised %s after %d retries with every other process idle (%s)' % (p, r[2], tails[pi], where))
+                nsleep = sum(1 for t in trace if t[0] == pi and t[2] == 'sleep')
+                if nsleep == 0 and kind == 'set':
+                    # sqlite serialises writers through its busy handler (wait and retry); a writer that reports 'locked' without having waited
+                    # even once gave up for a protocol reason (e.g. it tried to upgrade a read lock it kept), not because time ran out:
+                    # its entry is lost merely because another process was writing ANOTHER key
+                    return Discrepancy('C14/%s/%s/operation-failed/locked-without-waiting' % (tag, kind), '%r raised %s without a single wait/retry (%s)' % (p, r[2], where))
+                if pi < len(tails) and tails[pi] >= 1 and kind == 'set':
+                    # the writer gave up at once (no waiting) at a moment when every other process had already finished its operation: nobody was
+                    # competing for the database any more, yet its entry is lost
+                    return Discrepancy('C14/%s/%s/operation-failed/locked-with-no-other-process-active' % (tag, kind), '%r raised %s after only %d step(s) taken while every other process had finished (%s)' % (p, r[2], tails[pi], where))
                 locked = True
                 continue
             return Discrepancy('C14/%s/%s/operation-failed/%s' % (tag, kind, r[1]), '%r raised %s (%s)' % (p, r[2], where))
@@ -361,7 +388,7 @@ def judge(cfg, case, parts, keys, vals, I, W, results, final, trace, label, tail
     return None
 
 
-REQUIRED_CLASSES = ['file_lowlevel_open', 'shared_handle', 'interleaved', 'atomic_placement', 'random_schedule', 'scen:ww', 'scen:wr', 'scen:or', 'scen:wo', 'scen:wwr'] + ['cfg:' + c for c in CONFIGS] + \
+REQUIRED_CLASSES = ['writer_via:setdefault', 'writer_via:update', 'file_lowlevel_open', 'shared_handle', 'interleaved', 'atomic_placement', 'random_schedule', 'scen:ww', 'scen:wr', 'scen:or', 'scen:wo', 'scen:wwr'] + ['cfg:' + c for c in CONFIGS] + \
     ['reader:' + r for r in READS]
 
 
